@@ -514,14 +514,38 @@ impl Sim {
     }
 }
 
+/// Like `rpc`, for a point where the property requires success (listed peer at quiescence).
+pub async fn rpc_must(
+    run: &Arc<Run>,
+    net: &Network,
+    from: i64,
+    to: PeerId,
+    request: Request<Bytes>,
+    nonce: u64,
+) -> Result<Response<Bytes>, String> {
+    rpc_inner(run, net, from, to, request, nonce, true).await
+}
+
 /// One RPC with a nonce through `Network::rpc`; logs call and result.
 pub async fn rpc(
     run: &Arc<Run>,
     net: &Network,
     from: i64,
     to: PeerId,
+    request: Request<Bytes>,
+    nonce: u64,
+) -> Result<Response<Bytes>, String> {
+    rpc_inner(run, net, from, to, request, nonce, false).await
+}
+
+async fn rpc_inner(
+    run: &Arc<Run>,
+    net: &Network,
+    from: i64,
+    to: PeerId,
     mut request: Request<Bytes>,
     nonce: u64,
+    must: bool,
 ) -> Result<Response<Bytes>, String> {
     request
         .headers_mut()
@@ -544,11 +568,18 @@ pub async fn rpc(
         Ok(Err(e)) => Err(format!("{e}")),
         Err(_) => Err("HANG".into()),
     };
-    log_rpc_result(run, from, nonce, &result);
+    log_rpc_result(run, from, nonce, &result, must);
     result
 }
 
-pub fn log_rpc_result(run: &Arc<Run>, from: i64, nonce: u64, result: &Result<Response<Bytes>, String>) {
+pub fn log_rpc_result(
+    run: &Arc<Run>,
+    from: i64,
+    nonce: u64,
+    result: &Result<Response<Bytes>, String>,
+    must_succeed: bool,
+) {
+    let must = if must_succeed { Some(true) } else { None };
     match result {
         Ok(r) => run.obs(
             from,
@@ -562,12 +593,13 @@ pub fn log_rpc_result(run: &Arc<Run>, from: i64, nonce: u64, result: &Result<Res
                 "hdigest": headers_digest(r.headers()),
                 "resp_nonce": r.headers().get("nonce").and_then(|v| v.parse::<u64>().ok()),
                 "peer_seen": r.peer_id().map(|p| run.node_of(p)),
+                "must_succeed": must,
             }),
         ),
         Err(e) => run.obs(
             from,
             "obs.rpc_result",
-            json!({"nonce": nonce, "ok": false, "err": e}),
+            json!({"nonce": nonce, "ok": false, "err": e, "must_succeed": must}),
         ),
     }
 }
